@@ -191,12 +191,56 @@ def run(ctx):
         for d in ("HySC._init_data", "HypergraphMT._check_fit_params"):
             v = ctx.view(d)
             iso = {}
+            views = {}
+            binds = {}
+
+            def text_of(attr):
+                """the defining expression with locals written out and, for a helper, its parameters replaced by the arguments"""
+                import copy as _copy
+
+                e = _copy.deepcopy(views[attr].inline(iso[attr], depth=3))
+                b_ = binds.get(attr) or {}
+
+                class Sub(ast.NodeTransformer):
+                    def visit_Name(self, node):
+                        return _copy.deepcopy(b_[node.id]) if node.id in b_ and isinstance(node.ctx, ast.Load) else node
+
+                return norm(Sub().visit(e))
+
             for n in walk_no_nested(v.fi.node):
                 if isinstance(n, ast.Assign) and any(is_self_attr(n.targets[0], a) for a in ("isolates", "non_isolates")):
                     iso[n.targets[0].attr] = n.value
+                    views[n.targets[0].attr] = v
+                # `self.isolates, self.non_isolates = helper(...)`: the components of the tuple the helper returns
+                if isinstance(n, ast.Assign) and isinstance(n.targets[0], ast.Tuple) and all(is_self_attr(t) for t in n.targets[0].elts) and {t.attr for t in n.targets[0].elts} & {"isolates", "non_isolates"}:
+                    comps = None
+                    if isinstance(n.value, ast.Tuple) and len(n.value.elts) == len(n.targets[0].elts):
+                        comps, cv = n.value.elts, v
+                    elif isinstance(n.value, ast.Call):
+                        for g in ctx.callees(v.fi, n.value):
+                            gv = ctx.view(g)
+                            rets = [r for r in walk_no_nested(g.node) if isinstance(r, ast.Return) and r.value is not None]
+                            if len(rets) == 1:
+                                rv = gv.resolve(rets[0].value) if isinstance(rets[0].value, ast.Name) else rets[0].value
+                                if isinstance(rv, ast.Tuple) and len(rv.elts) == len(n.targets[0].elts):
+                                    comps, cv = rv.elts, gv
+                    if comps is not None:
+                        binding = {}
+                        if cv is not v:
+                            pn_ = [a_.arg for a_ in cv.fi.params]
+                            for i_, a_ in enumerate(n.value.args):
+                                if i_ < len(pn_):
+                                    binding[pn_[i_]] = a_
+                            for k_ in n.value.keywords:
+                                if k_.arg:
+                                    binding[k_.arg] = k_.value
+                        for t, c in zip(n.targets[0].elts, comps):
+                            iso[t.attr] = c
+                            views[t.attr] = cv
+                            binds[t.attr] = binding
             if set(iso) != {"isolates", "non_isolates"}:
                 raise AnalysisError(f"{v.fi.short}: isolates / non_isolates definition not found")
-            a, b = norm(v.inline(iso["isolates"])), norm(v.inline(iso["non_isolates"]))
+            a, b = text_of("isolates"), text_of("non_isolates")
             if "== 0" in a and "!= 0" in b:
                 res.check(a.replace("== 0", "X") == b.replace("!= 0", "X"), "I-ISOL", v.fi.short, a, "complementary", "isolates and non_isolates are not the zero / non-zero rows of the same count vector", loc(v.fi, v.fi.node))
             elif "!= 0" in a and "== 0" in b:
@@ -209,6 +253,6 @@ def run(ctx):
                 # node LABELS (anything obtained from the hypergraph object) are not row indices of the incidence matrix
                 hg_params = [p_.arg for p_ in v.fi.params if p_.arg not in ("self",)]
                 from_labels = any(t in a for t in ("get_nodes", "degree", "isolated_nodes", "get_neighbors")) or any((h + ".") in a for h in hg_params)
-                res.add("I-ISOL", v.fi.short, a, "from-incidence", "violation" if from_labels else "unknown", "isolated nodes are taken from the hypergraph's node labels, not from the rows of the incidence matrix: with labels other than 0..N-1 the wrong rows are dropped", loc(v.fi, v.fi.node))
+                res.add("I-ISOL", v.fi.short, a, "from-incidence", "violation" if from_labels and "transform(" not in a else "unknown", "isolated nodes are taken from the hypergraph's node labels, not from the rows of the incidence matrix: with labels other than 0..N-1 the wrong rows are dropped", loc(v.fi, v.fi.node))
     res.assumptions += ["scipy.sparse.csr_array is introspected on a 1x1 instance of the installed library (trusted base)", "sklearn KMeans with a fixed random_state is deterministic (library)"]
     return res
